@@ -151,7 +151,11 @@ def run_case(case):
     # ---- retention ---------------------------------------------------------------------
     gc.collect()
     alive = sum(1 for mine in refs if any(w() is not None for w in mine))
-    log('alive', alive, 'of', total)
+    # (the exact count is not logged: the process-wide errors_map responses legitimately keep the
+    #  latest failing request of each kind alive, and whether that is a request of this history or
+    #  of a cached/uncached reference run is not part of the run's identity)
+    log('retained_within_bound', alive <= RETAIN_MAX, 'of', total)
+    res['probes'][f'alive_after_gc={alive}'] += 1
     res['probes']['requests_served'] += total
     if alive > RETAIN_MAX:
         kinds_alive = sorted({(specs * repeat)[i]['kind'] for i, mine in enumerate(refs) if any(w() is not None for w in mine)})
